@@ -143,6 +143,12 @@ class Exec:
                 proc.add_process_listener(self.listener)  # registration is idempotent
         for spec in self.case.get('observers', ()):
             self._add_oneshot_observer(proc, spec)
+        if any(plan['do'][0] == 'remove_observer' for plan in self.case.get('hooks', ())):
+            def extra_observer(_process, _hook, _state):
+                return None
+
+            self.world.extra['extra_observer'] = extra_observer
+            proc.add_state_event_callback(StateEventHook.ENTERED_STATE, extra_observer)
         if not proc.has_terminated():
             if self.case.get('cleanup_follow_up') and self.follow_up is None:
                 self.follow_up = Cleanup()
